@@ -1553,6 +1553,7 @@ func (bg *BondgoCheck) Visit(n ast.Node) ast.Visitor {
 			}
 		}
 		bg.WriteLine(bg.CurrentRoutine, "j <<LASTN>>")
+		bg.Used <- UsageNotify{TR_PROC, bg.CurrentRoutine, C_OPCODE, "j", I_NIL}
 	case *ast.SendStmt:
 		if bg.In_debug() {
 			fmt.Println("Send Statement")
